@@ -129,6 +129,9 @@ type Sched struct {
 	Externals []External
 	// Monitor is called after every executed step once events are settled.
 	Monitor func(StepInfo) error
+	// RecordEffects keeps the name of every effect point in EffectOps.
+	RecordEffects bool
+	EffectOps     []string
 	// OnQuiescent is called whenever the controllers have nothing left to do
 	// (before the next external action, and at the end).
 	OnQuiescent func() error
@@ -176,6 +179,9 @@ func (s *Sched) enter(g *Gate, op string, effect bool) error {
 		if effect {
 			s.emu.Lock()
 			s.effects++
+			if s.RecordEffects {
+				s.EffectOps = append(s.EffectOps, "nb:"+op)
+			}
 			s.emu.Unlock()
 		}
 		return nil
@@ -196,10 +202,14 @@ func (s *Sched) enter(g *Gate, op string, effect bool) error {
 		s.emu.Lock()
 		if s.CrashAt >= 0 && s.CrashAt == s.effects && !s.CrashMid {
 			s.emu.Unlock()
+			s.x.Logf("  crash point %d reached before %s [%s]", s.CrashAt, op, g.name)
 			s.crashNow(g)
 			return errCrashed
 		}
 		s.effects++
+		if s.RecordEffects {
+			s.EffectOps = append(s.EffectOps, op)
+		}
 		s.emu.Unlock()
 	}
 	return nil
